@@ -245,6 +245,8 @@ def check_contract(cls, models_iter, budget, stats, failures, max_fail=5):
                   for n, f in posts:
                       ps = inspect.signature(f).parameters
                       kw = {k: (result if k == 'result' else args[k]) for k in ps}
+                      if n == 'post' and type(result) is list:
+                          kw['result'] = api.BagList(result)        # listings: elements and multiplicities, not order (DESIGN 9.9)
                       try:
                           ok = f(**kw)
                       except Exception as e:  # noqa: BLE001
